@@ -30,6 +30,7 @@ META["technique"] += '; truth-table complement check of reject against where'
 META["technique"] += "; nil tests on elements in filter comprehensions cover undefined and the map placeholder"
 META["technique"] += '; field-not-value presence tests for optionally evaluated tag arguments; zero-expected lint for hash-based collections in the filters; predicate agreement of where / find / find_index / has'
 META["technique"] += "; `is not None` defaulting of RenderContext's mapping parameters"
+META["technique"] += '; one positional argument to context.resolve'
 META["level_text"] += " Also decided (R8): every hook that a strict undefined class answers without raising answers exactly as the default Undefined does."
 
 U = "liquid2.undefined.Undefined"
@@ -547,6 +548,20 @@ def run(prog: Program, res: Result) -> None:  # noqa: PLR0912, PLR0915
     from checks.shared import check_selection_predicates_agree
 
     check_selection_predicates_agree(prog, res, "C16.R14")
+    # ------------------------------------------------------------------ R18 resolve() is asked with a default by keyword
+    res.rule("C16.R18", "a helper that asks the context for an optional name gets its default, not an undefined: every call of RenderContext.resolve passes one positional argument (the name) and the default by keyword - a second positional argument binds to whatever parameter comes second, and a lookup that was meant to fall back to nil hands a StrictUndefined to code that only tests it for truth (`decimal` with no `locale` in the data raises UndefinedError for a variable the template never mentions)")
+    n18 = 0
+    for fi18 in sorted(prog.all_functions(), key=lambda f: (f.file, f.node.lineno)):
+        for c18 in ast.walk(fi18.node):
+            if isinstance(c18, ast.Call) and isinstance(c18.func, ast.Attribute) and c18.func.attr == "resolve" and isinstance(c18.func.value, ast.Name) and "context" in c18.func.value.id.lower() and prog.enclosing_function(fi18.module, c18) is fi18:
+                n18 += 1
+                site = f"{fi18.file}:{c18.lineno} {fi18.qualname}"
+                what = f"{fi18.qualname}: `{norm(c18, 50)}` names its default"
+                if len(c18.args) > 1:
+                    res.fail("C16.R18", file=fi18.file, line=c18.lineno, qualname=fi18.qualname, construct=f"{fi18.qualname}: context.resolve() with a positional second argument", message=f"{fi18.qualname} calls `{norm(c18, 60)}`: the second positional argument is bound by position, not as `default=`; if it lands on another parameter the lookup returns the environment's undefined instead of the intended fallback, and a strict render fails on a name the template never uses", what=what)
+                else:
+                    res.ok("C16.R18", site, what, "one positional argument")
+    res.floor("C16.R18", "calls of context.resolve", n18, 8)
     # ------------------------------------------------------------------ R17 an empty mapping is a mapping
     res.rule("C16.R17", "what a tag binds after building its context is visible in it: RenderContext.__init__ defaults its mapping parameters with `x if x is not None else …`, never with `x or …` - the namespace a `render … with` / `include … for` tag fills after copying the context is still empty (falsy) when the constructor sees it, and `or {}` replaces it by a fresh dict, so the bound variable is undefined in the partial although the data has it")
     init17 = prog.cls("liquid2.context.RenderContext").methods.get("__init__")
